@@ -148,10 +148,10 @@ def report(prop, tier, seed, t0, camp, design, extra_cov=None, assumptions=()):
     return 1 if new else 0
 
 
-def design_runs(prop, tier):
+def design_runs(prop, tier, seed=1):
     """TLC runs of the design models relevant to the property (filled in by models.py)."""
     from . import models
-    return models.run_for(prop, tier)
+    return models.run_for(prop, tier, seed)
 
 
 def model_replay(tier, seed, sample):
@@ -176,7 +176,7 @@ MODEL_PROPS = ('C04', 'C05', 'C06', 'C07', 'C08', 'C09')
 def check_history(prop, tier, seed):
     t0 = time.time()
     cfg = HIST[prop]
-    design = design_runs(prop, tier)
+    design = design_runs(prop, tier, seed)
     nops = cfg['nops_thorough'] if tier == 'thorough' else cfg['nops']
     camp = campaign.run_campaign('history', cfg[tier], seed, profile=prop, nops=nops, alpha=cfg.get('alpha'),
                                  maxlen=12 if tier == 'thorough' else 8,
